@@ -32,6 +32,7 @@ TraceStep ==
        \/ ev.op = "iter_has_next" /\ OpIterHasNext
        \/ ev.op = "iter_next" /\ OpIterNext
        \/ ev.op = "iter_del" /\ OpIterDel
+       \/ ev.op = "iter_dup" /\ OpIterDup
        \/ ev.op = "dup" /\ OpDup
        \/ ev.op = "b_del" /\ OpDelB
        \/ ev.op = "b_append" /\ OpBAppend(ev.args[1])
